@@ -208,7 +208,8 @@ RegCodeIds == {0, 1, 3, 5}
 RegMenu(info, fuel, cu) ==
     {B0, BFail} \cup (IF fuel > 1 /\ info.entry = "execute"
                       THEN {Beh(FALSE, <<>>, <<>>, <<>>, NoData, <<Sub(m, 1, "", on)>>) :
-                               m \in {Inst(1, "Ls", "", <<>>, ""), Inst(1, "Ls", "", <<>>, "s1"), Inst(5, "Ls", "", <<>>, "")},
+                               m \in {Inst(1, "Ls", "", <<>>, ""), Inst(1, "Ls", "", <<>>, "s1"), Inst(5, "Ls", "", <<>>, ""),
+                                      Inst(1, "Ls", "", <<>>, "EMPTY")},
                                on \in {"never", "error"}}
                       ELSE {})
 RegCalls(rt, cd, n) ==
@@ -217,6 +218,7 @@ RegCalls(rt, cd, n) ==
     \cup { [k |-> "duplicate_code", id |-> i] : i \in {1, 4, 5} }
     \cup { ExecuteCall(u, << Inst(code, label, adm, <<>>, salt) >>) :
               u \in {"u1", "u2"}, code \in {1, 3, 5, 7}, label \in {"Lq", ""}, adm \in {"", "u2"}, salt \in {"", "s1"} }
+    \cup { ExecuteCall("u1", << Inst(1, "Lq", "", <<>>, salt) >>) : salt \in {"EMPTY", "LONG", "MAX"} }   \* salts of 0, 65, 64 bytes
     \cup { ExecuteCall("u1", << Exec(A, <<>>) >>) }
     \cup { ExecuteCall("u1", << Migrate(A, c) >>) : c \in {1, 2, 3, 4, 5, 6} }     \* A's admin migrates to every id
 
